@@ -28,6 +28,7 @@ var importMap = map[string]string{
 	"time":        vbase + "vtime",
 	"os":          vbase + "vos",
 	"math/rand":   vbase + "vrand",
+	"net":         vbase + "vnet",
 	"github.com/nsqio/go-diskqueue": vbase + "dq",
 }
 
